@@ -187,7 +187,7 @@ pub fn run(rep: &Report) -> i32 {
                 rep.nontrivial(1);
             }
         }
-        if i % 23 == 4 {
+        if i % 23 == 4 || rep.no_sample_yet() {
             rep.sample(4, || json!({"label": b.label, "program": b.text}));
         }
     });
